@@ -277,7 +277,8 @@ SWEEP = {
     "memory": ["push.5 mem_store.3", "mem_load.3 drop", "push.1.2.3.4 mem_storew.7 dropw", "padw mem_loadw.7 dropw", "push.4 push.100 mem_store", "push.100 mem_load drop",
                "padw push.100 mem_loadw dropw", "push.1.2.3.4 push.101 mem_storew dropw", "push.7 padw padw padw mem_stream dropw dropw dropw drop",
                "push.4294967295 mem_load drop", "push.8 mem_store.4294967295", "push.1.2.3.4 push.5.6.7.8 push.9.10.11.12 hperm dropw dropw dropw",
-               "push.1.2.3.4 push.5.6.7.8 hmerge dropw", "push.1.2.3.4 hash dropw", "locaddr_free"],
+               "push.1.2.3.4 push.5.6.7.8 hmerge dropw", "push.1.2.3.4 hash dropw", "locaddr_free",
+               "push.1.2.3.4 mem_storew.50 dropw push.5.6.0.0 mem_storew.60 dropw push.9 push.60 push.50 push.40 push.7.8.9.10 push.11.12.13.14.15.16.17.18 rcomb_base rcomb_base dropw dropw dropw dropw"],
     "arith": ["push.3 push.4 add drop", "push.3 push.4 mul drop", "push.3 neg drop", "push.3 inv drop", "push.3 push.3 eq drop", "push.0 eq.0 drop", "push.1 push.0 and drop",
               "push.1 push.0 or drop", "push.1 not drop", "push.5 push.3 exp drop", "push.3 exp.5 drop", "push.7 pow2 drop", "push.1.2 push.3.4 ext2mul drop drop", "push.3 push.9 ext2inv drop drop",
               "push.4294967295 push.1 u32overflowing_add drop drop", "push.5 push.6 push.7 u32overflowing_add3 drop drop", "push.1 push.2 u32overflowing_sub drop drop",
